@@ -236,8 +236,9 @@ type c02Mem struct {
 
 // c02MemCommit: an in-memory commitment of the given height with every
 // persisted field symbolic. HTLC shapes by case split: quick = none / one
-// outgoing with signature / one incoming without / one of each; thorough
-// adds two outgoing + two incoming.
+// outgoing / one incoming / one of each, all carrying the peer's signature
+// (every HTLC of our own commitment does); thorough adds two outgoing + two
+// incoming, the second of each without signature (nil sig branch).
 func c02MemCommit(height uint64, who lntypes.ChannelParty, shapes int) *c02Mem {
 	c := &commitment{
 		height:         height,
@@ -269,7 +270,7 @@ func c02MemCommit(height uint64, who lntypes.ChannelParty, shapes int) *c02Mem {
 		c.outgoingHTLCs = append(c.outgoingHTLCs, c02CommitHtlc(i == 0))
 	}
 	for i := 0; i < nIn; i++ {
-		c.incomingHTLCs = append(c.incomingHTLCs, c02CommitHtlc(i == 1))
+		c.incomingHTLCs = append(c.incomingHTLCs, c02CommitHtlc(i == 0))
 	}
 	m.out = append(m.out, c.outgoingHTLCs...)
 	m.in_ = append(m.in_, c.incomingHTLCs...)
@@ -554,7 +555,7 @@ func c02Revoke(htlcShapes int, maxLog int, deep bool) {
 }
 
 func VerifC02Revoke()     { c02Revoke(4, 2, false) }
-func VerifC02RevokeDeep() { c02Revoke(5, 3, true) }
+func VerifC02RevokeDeep() { c02Revoke(5, 2, true) }
 
 // ---------------------------------------------------------------------------
 // ReceiveRevocation
